@@ -31,7 +31,7 @@ def main():
     try:
         rc, o = sh('git -C /repo worktree add -q --detach %s HEAD' % repo)
         assert rc == 0, o
-        env = dict(os.environ, PYTHONPATH=repo, PYTHONDONTWRITEBYTECODE='1', PYTHONHASHSEED='0', OMP_NUM_THREADS='2', MKL_NUM_THREADS='2')
+        env = dict(os.environ, PYTHONPATH=repo, PYTHONDONTWRITEBYTECODE='1', PYTHONHASHSEED='0', OMP_NUM_THREADS='2', MKL_NUM_THREADS='2', NUMBA_NUM_THREADS='4')
         rc0, o0 = sh('/venv/bin/python %s' % os.path.join(d, 'demo.py'), cwd=repo, env=env, timeout=1800)
         out['demo_unchanged_rc'] = rc0
         rc, o = sh('git apply %s' % os.path.join(d, 'patch.diff'), cwd=repo)
